@@ -131,6 +131,7 @@ type genDyn struct {
 	kwSafe bool     // guarded against being a Go keyword
 	raw    bool     // the untransformed tree member (for C08.B1)
 	repeat string   // strings.Repeat of this constant: zero or more copies
+	flaw   string   // a defect of the transformation chain itself (reported where the value is spliced)
 }
 
 type genPiece struct {
@@ -460,6 +461,11 @@ func (a *genWalker) pieces(e ast.Expr) ([]genPiece, bool) {
 								return nil, false
 							}
 							c := old[0].konst[0]
+							for _, earlier := range ps[0].dyn.repl {
+								if strings.IndexByte(earlier, c) >= 0 {
+									d.flaw = fmt.Sprintf("the replacement of %q is applied after one that inserts %q, which contains that byte: the earlier splice is rewritten and the emitted text no longer denotes the original value", old[0].konst, earlier)
+								}
+							}
 							wasFirst := d.first[c]
 							d.first[c], d.rest[c] = false, false
 							if nw[0].konst != "" {
@@ -540,6 +546,11 @@ func (a *genWalker) pieces(e ast.Expr) ([]genPiece, bool) {
 					d.rest[old[0].konst[0]] = false
 					if nw[0].konst != "" {
 						d.repl = append(append([]string{}, d.repl...), nw[0].konst)
+					}
+					for _, earlier := range ps[0].dyn.repl {
+						if strings.IndexByte(earlier, old[0].konst[0]) >= 0 {
+							d.flaw = fmt.Sprintf("the replacement of %q is applied after one that inserts %q, which contains that byte: the earlier splice is rewritten and the emitted text no longer denotes the original value", old[0].konst, earlier)
+						}
 					}
 					d.raw = false
 					d.what = fmt.Sprintf("Replace(%s,%q,%q)", d.what, old[0].konst, nw[0].konst)
@@ -654,6 +665,9 @@ func (a *genWalker) feedDyn(l lexState, d *genDyn, at ast.Node, prev, next strin
 		if b := bad(union, func(c byte) bool { return c == '\n' }); b != "" {
 			fail("spliced inside a line comment but may contain " + b + " (the rest would be emitted as code)")
 		}
+	}
+	if d.flaw != "" {
+		fail(d.flaw)
 	}
 	for _, rp := range d.repl {
 		after := l.feedStr(rp)
